@@ -12,6 +12,10 @@ and emits
   lean/S3V/Gen/XmlSmithy.lean    the same schema shape derived from the Smithy traits only
   harness/src/gen_xml_dispatch.rs   `roundtrip(type_name, xml)`: one arm per type with a decoder and an encoder
   harness/src/gen_xml_tables.json   JSON copy of the deserialiser/serialiser tables for the document generator
+  harness/src/gen_xml_build.rs      Smithy-driven constructors of every dto type that can occur in the XML response
+                                    body of an operation (component svcoutput, C03): member names, element names, list
+                                    shapes and timestamp formats from data/s3.json only, Rust field names by the
+                                    codegen naming rule (checked against dto/generated.rs, and by rustc)
 
 The translator is deliberately dumb: every impl body is split into statements and each statement must match
 one of the shapes the codegen templates can print; anything else raises `Unrecognised`. It never guesses.
@@ -740,7 +744,7 @@ def smithy_struct(shapes, name):
             continue
         if "s3s#sealed" in t:
             continue
-        f = {"tag": t.get("smithy.api#xmlName", mn), "member": None}
+        f = {"tag": t.get("smithy.api#xmlName", mn), "member": None, "smithy_member": mn}
         f["attr"] = "smithy.api#xmlAttribute" in t
         f["nsdecl"] = "smithy.api#xmlNamespace" in t
         if f["nsdecl"]:
@@ -1175,8 +1179,192 @@ def run(repo, verif_root):
     R.append("")
     R.append(f"#[allow(dead_code)]\nconst ROUNDTRIP_ARMS: usize = {n_arms};")
     write_if_changed(os.path.join(verif_root, "harness", "src", "gen_xml_dispatch.rs"), "\n".join(R) + "\n")
+    n_build = emit_build(verif_root, shapes, ops, dto, sm_defs, tyset)
     return {"impls": n_impls, "types": len(tys), "ser": len(ser_defs), "de": len(de_defs), "smithy": len(sm_defs),
-            "no_smithy": no_smithy, "arms": n_arms, "tags": len(tags)}
+            "no_smithy": no_smithy, "arms": n_arms, "tags": len(tags), "build": n_build}
+
+# ------------------------------------------------------------------------------------------------
+# Smithy-driven constructors for XML response bodies (component svcoutput, C03)
+
+
+def op_snake(n):
+    """the backend method name of an operation (same rule as translate/ops_tables.py::snake)"""
+    s = re.sub(r"([a-z0-9])([A-Z])", r"\1_\2", n)
+    s = re.sub(r"([A-Z]+)([A-Z][a-z])", r"\1_\2", s)
+    return s.lower()
+
+
+def norm_field(s):
+    return s.replace("_", "").lower()
+
+
+def emit_build(verif_root, shapes, ops, dto, sm_defs, tyset):
+    """harness/src/gen_xml_build.rs: for every operation whose Smithy output has an XML body (an httpPayload member
+    that targets a structure / union, or members without an HTTP binding) a function that sets that body on the
+    operation's dto output from a value generator `G`, which records what it handed out as `path=value` lines under
+    the SMITHY element names. Nothing here is read from xml/generated.rs or ops/generated.rs."""
+    def rust_field(ty, member):
+        k = dto.get(ty)
+        if not k or k[0] != "struct":
+            fail(f"build: {ty} is not a dto struct")
+        hits = [f for f in k[1] if norm_field(f[0]) == norm_field(member)]
+        if len(hits) != 1:
+            fail(f"build: {ty}: Smithy member {member} matches {len(hits)} dto fields")
+        return hits[0]
+
+    need = []          # nested types to build, in discovery order
+    R = ["// GENERATED by translate/xml_tables.py (emit_build) - do not edit; regenerated on every run.",
+         "// Constructors of the XML response body of every operation that has one, driven by the Smithy model only.",
+         ""]
+
+    def scalar_expr(f, path):
+        k = f["kind"]
+        if k == "str":
+            return f"g.string({path}).into()"
+        if k == "enm":
+            return f"g.enm({path}).into()"
+        if k == "i32":
+            return f"g.int32({path})"
+        if k == "i64":
+            return f"g.int64({path})"
+        if k == "bool":
+            return f"g.boolean({path})"
+        if k == "ts":
+            return f"g.ts({path}, \"{f['fmt']}\")"
+        if k == "ref":
+            if f["ref"] not in need:
+                need.append(f["ref"])
+            return f"build_{f['ref']}(g, d + 1, {path})"
+        fail(f"build: kind {k}")
+
+    def member_expr(owner, f):
+        """expression of the dto field of Smithy member `f` of `owner`; `p` is the path of the owner"""
+        field, fty, optional = rust_field(owner, f["smithy_member"])
+        required = "true" if f["pres"] != "opt" else "false"
+        tag = f["tag"]
+        dk = dto.get(fty)
+        if f["shape"] == "single":
+            if dk is None or dk[0] in ("list", "map"):
+                fail(f"build: {owner}.{field}: single member of dto type {fty} ({dk and dk[0]})")
+            inner = scalar_expr(f, f'&child(p, "{tag}")')
+        else:
+            if dk is None or dk[0] != "list":
+                fail(f"build: {owner}.{field}: list member of dto type {fty} ({dk and dk[0]})")
+            wrapped = "true" if f["shape"] == "wrapped" else "false"
+            item = scalar_expr(f, '&format!("{}[{}]", lp, i)')
+            inner = (f'{{ let lp = child(p, "{tag}"); let n = g.len(d, {required}, {wrapped}, &lp); '
+                     f'(0..n).map(|i| {item}).collect::<Vec<_>>() }}')
+        if optional:
+            return field, f"if g.present(d, {required}) {{ Some({inner}) }} else {{ None }}"
+        return field, inner
+
+    def emit_struct(t):
+        d = sm_defs.get(t)
+        if d is None:
+            fail(f"build: no Smithy structure behind {t}")
+        if d[0] == "union":
+            k = dto.get(t)
+            if not k or k[0] != "union":
+                fail(f"build: {t}: Smithy union, dto {k and k[0]}")
+            names = [v for v, _ in k[1]]
+            R.append("#[allow(non_snake_case, unused_variables)]")
+            R.append(f"pub fn build_{t}(g: &mut G, d: u32, p: &str) -> s3s::dto::{t} {{")
+            R.append(f"    match g.variant({len(d[1])}) {{")
+            for i, v in enumerate(d[1]):
+                if v["variant"] not in names:
+                    fail(f"build: union {t}: no dto variant {v['variant']}")
+                arm = "_" if i == len(d[1]) - 1 else str(i)
+                vtag = v["tag"]
+                e = scalar_expr(v, f'&child(p, "{vtag}")')
+                R.append(f"        {arm} => s3s::dto::{t}::{v['variant']}({e}),")
+            R.append("    }")
+            R.append("}")
+            R.append("")
+            return
+        k = dto.get(t)
+        if not k or k[0] != "struct":
+            fail(f"build: {t}: Smithy structure, dto {k and k[0]}")
+        inits = {}
+        for f in d[1]:
+            field, e = member_expr(t, f)
+            inits[field] = e
+        R.append("#[allow(non_snake_case, unused_variables)]")
+        R.append(f"pub fn build_{t}(g: &mut G, d: u32, p: &str) -> s3s::dto::{t} {{")
+        R.append("    let n0 = g.lines.len();")
+        # Smithy member order = the order the values are drawn in and the order of the recorded lines
+        for f in d[1]:
+            field, _, _ = rust_field(t, f["smithy_member"])
+            R.append(f"    let f_{field} = {inits[field]};")
+        R.append(f"    let v = s3s::dto::{t} {{")
+        for field, _, _ in k[1]:
+            if field in inits:
+                R.append(f"        {field}: f_{field},")
+            else:
+                # a dto field without a body member of the Smithy structure behind it
+                R.append(f"        {field}: Default::default(),")
+        R.append("    };")
+        R.append("    if g.lines.len() == n0 { g.mark(p, \"{}\"); }")
+        R.append("    v")
+        R.append("}")
+        R.append("")
+
+    arms = []
+    for opn in sorted(ops):
+        op = ops[opn]
+        tgt = op.get("output", {}).get("target", "smithy.api#Unit")
+        if tgt == "smithy.api#Unit":
+            continue
+        st = shapes[tgt.split("#")[1]]
+        out_ty = opn + "Output"
+        if out_ty not in dto:
+            continue  # not an operation of s3s
+        payload = [(mn, mv) for mn, mv in st["members"].items() if "smithy.api#httpPayload" in mv.get("traits", {})]
+        if payload:
+            mn, mv = payload[0]
+            tn = mv["target"].split("#")[1]
+            tsh = shapes.get(tn)
+            if tsh is None or tsh["type"] not in ("structure", "union") or "smithy.api#streaming" in tsh.get("traits", {}):
+                continue
+            if tn not in tyset:
+                fail(f"build: {opn}: payload type {tn} has no XML impl in s3s")
+            field, fty, optional = rust_field(out_ty, mn)
+            if fty != tn:
+                fail(f"build: {opn}: payload member {field} has dto type {fty}, Smithy target {tn}")
+            if tn not in need:
+                need.append(tn)
+            val = f'build_{tn}(g, 0, "")'
+            arms.append((opn, out_ty, [f"o.{field} = {'Some(' + val + ')' if optional else val};"]))
+        else:
+            if out_ty not in sm_defs or sm_defs[out_ty][0] != "struct" or not sm_defs[out_ty][1]:
+                continue
+            stmts = ["let (d, p) = (0u32, \"\");"]
+            for f in sm_defs[out_ty][1]:
+                field, e = member_expr(out_ty, f)
+                stmts.append(f"o.{field} = {e};")
+            arms.append((opn, out_ty, stmts))
+    done = 0
+    while done < len(need):
+        emit_struct(need[done])
+        done += 1
+    R.append("/// set the XML body of the output of backend method `meth`; false when the operation has none")
+    R.append("#[allow(unused_variables)]")
+    R.append("pub fn fill_output(meth: &str, out: &mut dyn std::any::Any, g: &mut G) -> bool {")
+    R.append("    match meth {")
+    for opn, out_ty, stmts in arms:
+        R.append(f'        "{op_snake(opn)}" => {{')
+        R.append(f'            let o = out.downcast_mut::<s3s::dto::{out_ty}>().expect("output type of {opn}");')
+        for s in stmts:
+            R.append("            " + s)
+        R.append("            true")
+        R.append("        }")
+    R.append("        _ => false,")
+    R.append("    }")
+    R.append("}")
+    R.append("")
+    R.append("/// the operations `fill_output` knows")
+    R.append("pub const XML_OUTPUT_OPS: &[&str] = &[" + ", ".join(f'"{opn}"' for opn, _, _ in arms) + "];")
+    write_if_changed(os.path.join(verif_root, "harness", "src", "gen_xml_build.rs"), "\n".join(R) + "\n")
+    return {"ops": len(arms), "types": len(need)}
 
 
 if __name__ == "__main__":
